@@ -582,6 +582,10 @@ class Q:
     def __float__(self):
         return self.const_value()
 
+    def __bool__(self):
+        """truthiness of a float: x != 0 (NaN is truthy); forks when undecided"""
+        return bool(SymBool.mk(bnot(self._eq(Q.lift(0)))))
+
     def astype(self, dtype, *a, **k):
         """numpy-scalar protocol: a 0-d measure value cast to float stays symbolic"""
         import numpy as _np
@@ -1091,6 +1095,51 @@ class Q:
 
 
 Q.NAN = Q(Fraction(0), nan=True)
+
+
+class PyReal(Q):
+    """a number read as a *Python* scalar from the response dict (filter statistics, population):
+    division by zero raises ZeroDivisionError (on its own path) instead of producing inf/NaN."""
+    __slots__ = ()
+
+    @staticmethod
+    def of(q):
+        q = Q.lift(q)
+        r = PyReal(q.n, q.d, q.rn, q.rd, q.nan, q.inf, q.sg)
+        return r
+
+    def __add__(self, o):
+        r = Q.__add__(self, o)
+        return r if r is NotImplemented or isinstance(o, np.ndarray) else PyReal.of(r)
+
+    __radd__ = __add__
+
+    def __sub__(self, o):
+        r = Q.__sub__(self, o)
+        return r if r is NotImplemented else PyReal.of(r)
+
+    def __mul__(self, o):
+        r = Q.__mul__(self, o)
+        return r if r is NotImplemented else PyReal.of(r)
+
+    __rmul__ = __mul__
+
+    def __truediv__(self, o):
+        if isinstance(o, (PyReal, int, float)) and not isinstance(o, bool):
+            oq = Q.lift(o)
+            if bool(SymBool.mk(oq._eq(Q.lift(0)))):
+                raise ZeroDivisionError("division by zero")
+            return PyReal.of(Q.__truediv__(self, oq))
+        if o is None:
+            raise TypeError("unsupported operand type(s) for /: 'float' and 'NoneType'")
+        return Q.__truediv__(self, o)
+
+    def __rtruediv__(self, o):
+        if o is None:
+            raise TypeError("unsupported operand type(s) for /: 'NoneType' and 'float'")
+        if bool(SymBool.mk(self._eq(Q.lift(0)))):
+            raise ZeroDivisionError("division by zero")
+        return PyReal.of(Q.lift(o) / Q(self.n, self.d, self.rn, self.rd, self.nan, self.inf, self.sg))
 
 
 def eqv(a, b):
